@@ -1,6 +1,7 @@
 package main
 
 import (
+	"errors"
 	"fmt"
 	"go/types"
 	"math"
@@ -428,7 +429,18 @@ func buildIntrinsics() map[string]intrinsic {
 		}
 		f, err := strconv.ParseFloat(s, int(a[1].(*Term).Val))
 		if err != nil {
-			e.unsupported("strconv.ParseFloat error path")
+			// the error value is built by strconv's own constructors (interpreted from their SSA)
+			name := "syntaxError"
+			if errors.Is(err, strconv.ErrRange) {
+				name = "rangeError"
+			}
+			pk := e.prog.ImportedPackage("strconv")
+			if pk == nil || pk.Func(name) == nil {
+				e.unsupported("strconv.ParseFloat error path")
+			}
+			fn := pk.Func(name)
+			ne := e.call(fr, 0, fn, []value{e.mkstr("ParseFloat"), e.mkstr(s)})
+			return tuple{f, iface{t: types.NewPointer(pk.Type("NumError").Type()), v: ne}}
 		}
 		return tuple{f, iface{}}
 	}
